@@ -1810,6 +1810,9 @@ func (b *Bitmap) Flip(start, end uint64) *Bitmap {
 		} else {
 			result.DirectAdd(i)
 		}
+		if i == ^uint64(0) {
+			break // i++ would wrap around
+		}
 	}
 	//add remaining.
 	for !eof {
